@@ -6,6 +6,7 @@ CONSTANTS
   MAXU = 3
   OBJS = {"a", "s"}
   PROP = "C02"
+  PERT = {1}
 SPECIFICATION Spec
 INVARIANTS C02 C07 C09 NoJunk EmitReplay
 CHECK_DEADLOCK FALSE
